@@ -128,8 +128,13 @@ impl<T> SourceText<T> where T: AsRef<str> {
 
     /// Returns the end position of the text.
     pub fn end_position(&self) -> Pos {
-        let end = self.metrics.end_position(self.as_str(), Pos::ZERO);
-        self.offset.shifted(end)
+        // Measure from the page position of the start of the text, so that
+        // columns on the first line (in particular tab stops) are those of
+        // the enclosing document; only the byte is relative to the text.
+        let start = Pos { byte: 0, page: self.offset.page };
+        let mut end = self.metrics.end_position(self.as_str(), start);
+        end.byte += self.offset.byte;
+        end
     }
 
     /// Returns the next column-aligned position after the given base position
